@@ -52,6 +52,55 @@ __CPROVER_assigns(*e)
 __CPROVER_ensures(scalar_ok(e))
 ;
 
+/* ---- call log of the nonce function (nonce_function_bip340_impl, or a caller-supplied noncefp stub
+ * that writes the same ghost variables).  The impl itself is PROVED at the hash-stream level by
+ * C02.nonce; this contract keeps: pointer validity it needs, frame {nonce32[0..32)}, return in {0,1}. */
+#ifdef C02_NONCE_CONTRACT
+int g_nf_n, g_nf_which, g_nf_ret; const unsigned char *g_nf_msgp, *g_nf_algop; const void *g_nf_data; size_t g_nf_msglen, g_nf_algolen;
+unsigned char g_nf_key[32], g_nf_pk[32], g_nf_out[32]; const secp256k1_hash_ctx *g_nf_hc;
+#define NF_B4(g, a, i) g[i] == a[i] && g[i+1] == a[i+1] && g[i+2] == a[i+2] && g[i+3] == a[i+3]
+#define NF_K4(g, i) g[i] == __CPROVER_old(g[i]) && g[i+1] == __CPROVER_old(g[i+1]) && g[i+2] == __CPROVER_old(g[i+2]) && g[i+3] == __CPROVER_old(g[i+3])
+#define NF_B32(g, a) (NF_B4(g, a, 0) && NF_B4(g, a, 4) && NF_B4(g, a, 8) && NF_B4(g, a, 12) && NF_B4(g, a, 16) && NF_B4(g, a, 20) && NF_B4(g, a, 24) && NF_B4(g, a, 28))
+#define NF_K32(g) (NF_K4(g, 0) && NF_K4(g, 4) && NF_K4(g, 8) && NF_K4(g, 12) && NF_K4(g, 16) && NF_K4(g, 20) && NF_K4(g, 24) && NF_K4(g, 28))
+static int nonce_function_bip340_impl(const secp256k1_hash_ctx *hash_ctx, unsigned char *nonce32, const unsigned char *msg, size_t msglen, const unsigned char *key32, const unsigned char *xonly_pk32, const unsigned char *algo, size_t algolen, void *data)
+__CPROVER_requires(hash_ctx != NULL && __CPROVER_w_ok(nonce32, 32) && __CPROVER_r_ok(key32, 32) && __CPROVER_r_ok(xonly_pk32, 32) && (msglen == 0 || __CPROVER_r_ok(msg, msglen)))
+__CPROVER_requires((algo == NULL || algolen == 0 || __CPROVER_r_ok(algo, algolen)) && (data == NULL || __CPROVER_r_ok(data, 32)))
+__CPROVER_assigns(__CPROVER_object_upto(nonce32, 32), g_nf_n, g_nf_which, g_nf_ret, g_nf_msgp, g_nf_algop, g_nf_data, g_nf_msglen, g_nf_algolen, g_nf_key, g_nf_pk, g_nf_out, g_nf_hc)
+__CPROVER_ensures(__CPROVER_return_value == 0 || __CPROVER_return_value == 1)
+__CPROVER_ensures(g_nf_n == __CPROVER_old(g_nf_n) + 1)
+__CPROVER_ensures(__CPROVER_old(g_nf_n) == 0
+    ? (g_nf_which == 0 && g_nf_ret == __CPROVER_return_value && g_nf_msgp == msg && g_nf_algop == algo && g_nf_data == data && g_nf_msglen == msglen && g_nf_algolen == algolen &&
+       g_nf_hc == hash_ctx && NF_B32(g_nf_key, key32) && NF_B32(g_nf_pk, xonly_pk32) && NF_B32(g_nf_out, nonce32))
+    : (g_nf_which == __CPROVER_old(g_nf_which) && g_nf_ret == __CPROVER_old(g_nf_ret) && g_nf_msgp == __CPROVER_old(g_nf_msgp) && g_nf_algop == __CPROVER_old(g_nf_algop) &&
+       g_nf_data == __CPROVER_old(g_nf_data) && g_nf_msglen == __CPROVER_old(g_nf_msglen) && g_nf_algolen == __CPROVER_old(g_nf_algolen) && g_nf_hc == __CPROVER_old(g_nf_hc) &&
+       NF_K32(g_nf_key) && NF_K32(g_nf_pk) && NF_K32(g_nf_out)))
+;
+#elif defined(C02_NONCE_FRAME)
+/* the non-ghost part of the contract above, enforced against the real body by C02.nonce_frame */
+static int nonce_function_bip340_impl(const secp256k1_hash_ctx *hash_ctx, unsigned char *nonce32, const unsigned char *msg, size_t msglen, const unsigned char *key32, const unsigned char *xonly_pk32, const unsigned char *algo, size_t algolen, void *data)
+__CPROVER_requires(hash_ctx != NULL && __CPROVER_w_ok(nonce32, 32) && __CPROVER_r_ok(key32, 32) && __CPROVER_r_ok(xonly_pk32, 32) && (msglen == 0 || __CPROVER_r_ok(msg, msglen)))
+__CPROVER_requires((algo == NULL || algolen == 0 || __CPROVER_r_ok(algo, algolen)) && (data == NULL || __CPROVER_r_ok(data, 32)))
+__CPROVER_assigns(__CPROVER_object_upto(nonce32, 32))
+__CPROVER_ensures(__CPROVER_return_value == 0 || __CPROVER_return_value == 1)
+;
+#endif
+
+/* ---- argument log of secp256k1_schnorrsig_sign_internal (used by C02.sign32 only: "sign32 is
+ * sign_internal with msglen = 32, the BIP-340 nonce function and aux_rand32 as its data").  The
+ * behaviour of sign_internal for exactly such arguments is what C02.sign proves through
+ * secp256k1_schnorrsig_sign_custom, which forwards its arguments unchanged. */
+#ifdef C02_SIGN_INTERNAL_CONTRACT
+int g_si_n, g_si_ret; const secp256k1_context *g_si_ctx; unsigned char *g_si_sig; const unsigned char *g_si_msg; size_t g_si_msglen; const secp256k1_keypair *g_si_kp;
+secp256k1_nonce_function_hardened g_si_fp; void *g_si_ndata;
+static int secp256k1_schnorrsig_sign_internal(const secp256k1_context* ctx, unsigned char *sig64, const unsigned char *msg, size_t msglen, const secp256k1_keypair *keypair, secp256k1_nonce_function_hardened noncefp, void *ndata)
+__CPROVER_requires(ctx != NULL)
+__CPROVER_assigns(sig64 != NULL: __CPROVER_object_upto(sig64, 64); g_si_n, g_si_ret, g_si_ctx, g_si_sig, g_si_msg, g_si_msglen, g_si_kp, g_si_fp, g_si_ndata)
+__CPROVER_ensures(__CPROVER_return_value == 0 || __CPROVER_return_value == 1)
+__CPROVER_ensures(g_si_n == __CPROVER_old(g_si_n) + 1 && g_si_ret == __CPROVER_return_value && g_si_ctx == ctx && g_si_sig == sig64 && g_si_msg == msg && g_si_msglen == msglen &&
+                  g_si_kp == keypair && g_si_fp == noncefp && g_si_ndata == ndata)
+;
+#endif
+
 #ifdef C02_HASHLOG2
 #ifdef VERIF_HASH_LOG_H
 #error "include assumed_C02.h with C02_HASHLOG2 instead of hash_log.h, not in addition"
